@@ -550,10 +550,20 @@ def random_schedules(rng, n, flavour, max_steps=40):
     engine ignores a Replace nobody asked for; finishing a connection that is not in progress yet only makes it finish
     as soon as it is served), so TLC can judge the recorded run in predicate mode."""
     out = []
+    # quick tier: a dozen constant combinations (every combination costs two JVM starts for the trace checks);
+    # thorough: all 48 (workers 1..3 x limits 1..4 x listener layouts)
+    combos = None
+    if n <= 500:
+        combos = [(1, 1, ["tcp"]), (1, 2, ["uds"]), (1, 3, ["tcp", "uds"]), (2, 1, ["tcp"]), (2, 2, ["tcp", "uds"]), (2, 2, ["tcp"]),
+                  (2, 3, ["uds", "tcp"]), (2, 4, ["tcp"]), (3, 1, ["tcp", "uds"]), (3, 2, ["tcp"]), (3, 3, ["uds"]), (3, 4, ["tcp", "uds"])]
     for k in range(n):
-        w = rng.randint(1, 3)
-        limit = rng.randint(1, 4)
-        listeners = rng.choice([["tcp"], ["tcp", "uds"], ["uds"], ["uds", "tcp"]])
+        if combos:
+            w, limit, listeners = rng.choice(combos)
+            listeners = list(listeners)
+        else:
+            w = rng.randint(1, 3)
+            limit = rng.randint(1, 4)
+            listeners = rng.choice([["tcp"], ["tcp", "uds"], ["uds"], ["uds", "tcp"]])
         nl = len(listeners)
         steps, nconn = [], 0
 
